@@ -117,15 +117,52 @@ def raw_ast(rng, kind):
     return "U %d %s %d %s %d %s" % (len(wd), " ".join(wd), len(attrs), " ".join(attrs), len(nlri), " ".join(nlri)), post
 
 
+def _nlri_octets(ps):
+    return sum(1 + (int(x.split("/")[0]) + 7) // 8 for x in ps)
+
+
+def half_ast(rng):
+    """An UPDATE that is malformed in exactly ONE half: the last NLRI inside its MP_UNREACH_NLRI (or MP_REACH_NLRI) is to be
+    spoilt, while the other half - conventional NLRI / an MP_REACH_NLRI, or conventional withdrawn routes / an MP_UNREACH_NLRI -
+    is fine. routecore checks the framing and the conventional fields when the message is parsed and the NLRI inside the MP
+    attributes only when they are walked, so such an UPDATE gets past from_octets and one of explode_announcements /
+    explode_withdrawals fails on it. Returns (ast, ("spoil", k), shape): the octet k from the end of the PDU is the length
+    octet of the marker prefix (an /8) and is to be overwritten."""
+    shape = rng.weighted([("unreach-bad+nlri", 30), ("unreach-bad+mp-reach", 20), ("reach-bad+withdrawn", 30), ("reach-bad+mp-unreach", 20)])
+    fam = rng.weighted([(0, 25), (1, 20), (2, 35), (3, 20)])
+    bad = _pick(rng, fam, 0, 2) + ["8/%02x" % rng.range(1, 250)]
+    wd, nlri = [], []
+    if shape.startswith("unreach-bad"):
+        if shape == "unreach-bad+nlri":
+            nlri = _pick(rng, 0)
+            attrs = _raw_attrs(rng, True)
+        else:
+            gfam = rng.weighted([(0, 30), (1, 20), (2, 35), (3, 15)])
+            attrs = _raw_attrs(rng, False)
+            attrs.insert(rng.below(len(attrs) + 1), _mp("R", gfam, _pick(rng, gfam), rng))
+        attrs.append(_mp("N", fam, bad, rng))
+    else:
+        attrs = _raw_attrs(rng, False)
+        if shape == "reach-bad+withdrawn":
+            wd = _pick(rng, 0)
+        else:
+            gfam = rng.weighted([(0, 30), (1, 20), (2, 35), (3, 15)])
+            attrs.insert(rng.below(len(attrs) + 1), _mp("N", gfam, _pick(rng, gfam), rng))
+        attrs.append(_mp("R", fam, bad, rng))
+    ast = "U %d %s %d %s %d %s" % (len(wd), " ".join(wd), len(attrs), " ".join(attrs), len(nlri), " ".join(nlri))
+    return ast, ("spoil", 2 + _nlri_octets(nlri)), shape
+
+
 def raw_plan(rng, n=(5, 12)):
     kinds = [("ann", 34), ("wd", 22), ("both", 10), ("tail", 12), ("mut", 10), ("eor", 4), ("eorlike", 4), ("unk", 4)]
     return [raw_ast(rng, rng.weighted(kinds)) for _ in range(rng.range(*n))]
 
 
-def encode_plans(V, rng, plans):
+def encode_plans(V, rng, plans, kept=None):
     """ASTs -> octets through the PROVED encoder (oracle c04enc); the malformed variants are made from its output.
     PDUs on which C04's decoder and routecore are known to differ (C04's findings and its one tolerance) are left out:
-    they are C04's business. Returns, per plan, the list of hex strings."""
+    they are C04's business. Returns, per plan, the list of hex strings; if `kept` is a list it receives, per plan, the
+    indices of the plan's entries that were kept."""
     from props import c04 as C04
     flat = [a for pl in plans for a, _ in pl]
     enc = V.run_lines(V.ORACLE, "c04enc", flat, shards=4)
@@ -143,6 +180,11 @@ def encode_plans(V, rng, plans):
                 r = rng.fork("tail%d.%d" % (pi, len(hs)))
                 b[-2] = r.choice([200, 255, 129, 33, 40]) if r.chance(70) else r.range(9, 32)   # too long for the family / runs past the end
                 hx = b.hex()
+            elif isinstance(post, tuple) and post[0] == "spoil":
+                b = bytearray.fromhex(hx)
+                r = rng.fork("spoil%d.%d" % (pi, len(hs)))
+                b[-post[1]] = r.choice([200, 255, 129, 33, 40]) if r.chance(70) else r.range(9, 32)
+                hx = b.hex()
             elif post == "mut":
                 _, hx = C04.mutate(rng.fork("mut%d.%d" % (pi, len(hs))), hx)
                 b = list(bytes.fromhex(hx))
@@ -155,8 +197,11 @@ def encode_plans(V, rng, plans):
     # the malformed ones: ask C04's oracle whether the PDU is in one of the classes C04 keeps for itself
     obs = V.run_lines(V.ORACLE, "c04", ["wm " + out[pi][j] for pi, j in cand], shards=4)
     drop = {(pi, j) for (pi, j), o in zip(cand, obs) if "<ERR|" in o or "|||" in o or o.startswith("MODEL-ERROR")}
-    return [[h for j, h in enumerate(hs) if (pi, j) not in drop and len(h) // 2 >= 19 and int(h[32:36], 16) == len(h) // 2]
+    keep = [[j for j, h in enumerate(hs) if (pi, j) not in drop and len(h) // 2 >= 19 and int(h[32:36], 16) == len(h) // 2]
             for pi, hs in enumerate(out)]
+    if kept is not None:
+        kept.extend(keep)
+    return [[hs[j] for j in js] for hs, js in zip(out, keep)]
 
 
 def gen_case(rng, peers=ALL_PEERS, flaps=True, reup=True, metrics=True, bgp=True, nrouters=2, length=(6, 45),
